@@ -66,6 +66,18 @@ static Mat poisson1d(int n, const char *nm) {
     m.name = nm; return m;
 }
 static Mat diagonal(int n) { Mat m; m.n = n; m.ptr.push_back(0); for (int i = 0; i < n; ++i) { m.col.push_back(i); m.val.push_back(1 + i); m.ptr.push_back(i + 1); } m.name = vf::KS() << "diag" << n; return m; }
+// 1-D Poisson stored with a dense pattern: every entry outside the band holds a subnormal number (nonzero, finite: a valid
+// input whose tiny entries are "nonzero" for some tests and "negligible" for others); numbering i -> (step*i) mod n
+static Mat tiny_offband(int n, int step) {
+    Mat m; m.n = n; m.ptr.push_back(0);
+    std::vector<int> pos(n); for (int i = 0; i < n; ++i) pos[(step * i) % n] = i;      // new index -> chain position
+    for (int i = 0; i < n; ++i) {
+        for (int j = 0; j < n; ++j) { int d = std::abs(pos[i] - pos[j]); m.col.push_back(j); m.val.push_back(d == 0 ? 4.0 : d == 1 ? -1.0 : 1e-310); }
+        m.ptr.push_back((ptrdiff_t)m.col.size());
+    }
+    m.name = vf::KS() << "tiny_offband" << n << "_step" << step;
+    return m;
+}
 static Mat two_blocks() {   // disconnected graph: two 1-D Poisson blocks of size 3 and an isolated unknown
     Mat m; m.n = 7; m.ptr.push_back(0);
     for (int i = 0; i < 7; ++i) {
@@ -259,6 +271,7 @@ int main(int argc, char **argv) {
         mats.push_back(make_mat(n, off, rule));
     }
     mats.push_back(diagonal(5)); mats.push_back(two_blocks()); mats.push_back(poisson1d(6, "poisson1d_6")); mats.push_back(poisson1d(9, "poisson1d_9")); mats.push_back(grid2d(3)); mats.push_back(grid2d(4));
+    mats.push_back(tiny_offband(7, 1)); mats.push_back(tiny_offband(7, 3)); mats.push_back(tiny_offband(8, 3));
     // a few 4x4 patterns with positive rows
     for (uint64_t off : {0x111ull, 0xfffull, 0x842ull, 0x0f0ull, 0xa5aull}) for (int rule = 0; rule < 3; ++rule) mats.push_back(make_mat(4, off, rule));
     std::vector<Cfg> cfgs = configs(vf::quick());
